@@ -180,7 +180,7 @@ AutDef ==
 
 SeqRange(q) == { q[i] : i \in 1..Len(q) }
 AutRec(e) == [n |-> e.n, start |-> e.start, cls |-> e.cls, delta |-> e.delta,
-              match |-> SeqRange(e.match), can |-> SeqRange(e.can), always |-> SeqRange(e.always)]
+              match |-> SeqRange(e.match), can |-> SeqRange(e.can), always |-> SeqRange(e.always), eof |-> e.eof]
 AutOf(s) == IF s.a = None THEN None ELSE Some(AutRec(Rec[auts[s.a[1]]]))
 
 SNew ==
@@ -199,8 +199,8 @@ SNext ==
     /\ E.s \in DOMAIN strm
     /\ \E s \in {strm[E.s]} : \E A \in {AutOf(s)} :
        LET c == Items(s.m) IN
-       /\ ~s.done
-       /\ NextOK(c, s.from, s.to, A, s.pos, E.idx)
+       \* (a finished stream stays finished: further calls return None)
+       /\ IF s.done THEN E.idx = 0 ELSE NextOK(c, s.from, s.to, A, s.pos, E.idx)
        /\ IF E.idx = 0 THEN E.res = None
           ELSE /\ E.res # None
                /\ E.res[1][1] = c[E.idx][1]
@@ -208,7 +208,7 @@ SNext ==
                \* search_with_state: the automaton state after the key
                /\ (Len(E.res[1]) = 3 => A # None /\ E.res[1][3] = ARun(A[1], c[E.idx][1]))
        /\ strm' = [strm EXCEPT ![E.s].pos = IF E.idx = 0 THEN @ ELSE E.idx,
-                               ![E.s].done = (E.idx = 0)]
+                               ![E.s].done = (s.done \/ E.idx = 0)]
     /\ UNCHANGED <<mdl, bld, fsts, auts, ops>>
 
 ---------------------------------------------------------------------------
@@ -232,8 +232,7 @@ ONext ==
            e == Rec[o.line]
            T == TableOf(e)
            K == Len(e.ins) IN
-       /\ ~o.done
-       /\ OpNextOK(e.op, T, K, o.pos, E.idx)
+       /\ IF o.done THEN E.idx = 0 ELSE OpNextOK(e.op, T, K, o.pos, E.idx)
        /\ IF E.idx = 0 THEN E.res = None
           ELSE /\ E.res # None
                /\ E.res[1][1] = T[E.idx][1]
@@ -241,7 +240,7 @@ ONext ==
                /\ { E.res[1][2][n] : n \in 1..Len(E.res[1][2]) } = OpOuts(e.op, T[E.idx][2])
                /\ Len(E.res[1][2]) = Cardinality(OpOuts(e.op, T[E.idx][2]))
        /\ ops' = [ops EXCEPT ![E.o].pos = IF E.idx = 0 THEN @ ELSE E.idx,
-                             ![E.o].done = (E.idx = 0)]
+                             ![E.o].done = (o.done \/ E.idx = 0)]
     /\ UNCHANGED <<mdl, bld, fsts, auts, strm>>
 
 PredEv ==
